@@ -473,7 +473,7 @@ TExpect ==
 
 \* events that carry no obligation for the monitors of this module
 Skippable == {"Deal", "CacheAdd", "Flush", "HubSlow", "HubDelete", "Subscribed", "CacheRead", "WatchClosing",
-              "RetryDeal", "Get", "IterOpen", "IterItem", "Die", "Note", "IterFault", "GetFault"}
+              "RetryDeal", "Get", "IterOpen", "IterItem", "Die", "Note", "IterFault", "GetFault", "EngineWedged"}
 \* a request made the code under test panic (the driver recovered the goroutine): no property allows that
 TPanic ==
     /\ Is("Panic") /\ Adv
@@ -518,12 +518,19 @@ TWBulk ==
                              "WatchBulkExactlyOnce")
     /\ UNCHANGED <<idx, ver, hv, floor, cm, base, pend, maxRet, seen, maxRev, evlog, ws, rds, prefixes, cmax, expiring, chg, ttl>>
 
+\* the code began a batch on the engine and never committed it; the driver then asked the engine (with a deadline) whether it still
+\* answers: one that does not (memkv keeps its store lock from BeginBatchWrite to Commit) has stopped the node for good
+TAbandoned ==
+    /\ Is("AbandonedBatch") /\ Adv
+    /\ viol' = viol \cup V(~E.wedged, "EngineAnswers")
+    /\ UNCHANGED <<idx, ver, hv, floor, cm, base, pend, maxRet, seen, maxRev, evlog, ws, rds, prefixes, cmax, expiring, chg, ttl>>
+
 TSkip ==
     /\ l <= Len(Trace) /\ E.e \in Skippable /\ Adv
     /\ UNCHANGED <<idx, ver, hv, floor, cm, base, pend, maxRet, seen, maxRev, evlog, ws, rds, prefixes, cmax, expiring, chg, ttl, viol>>
 
 TNext == TReset \/ TPanic \/ TParts \/ TBulk \/ TWBulk \/ TWrap \/ TInitEv \/ TInvoke \/ TCommit \/ TNotify \/ TCommitted \/ TReturn
-         \/ TWatchInvoke \/ TWatchReturn \/ TRecv \/ TClosed \/ TQuiesce \/ TSkip
+         \/ TWatchInvoke \/ TWatchReturn \/ TRecv \/ TClosed \/ TQuiesce \/ TSkip \/ TAbandoned
          \/ TRInvoke \/ TRReturn \/ TCInvoke \/ TCReturn \/ TDel \/ TExpect
 
 TSpec == TInit /\ [][TNext]_vars
@@ -555,6 +562,7 @@ M_ResolvedAfterWrap     == NoViol("ResolvedAfterWrap")
 M_FailedReturnsCurrent  == NoViol("FailedReturnsCurrent")
 M_BulkStreamExactlyOnce == NoViol("BulkStreamExactlyOnce")
 M_WatchBulkExactlyOnce  == NoViol("WatchBulkExactlyOnce")
+M_EngineAnswers == NoViol("EngineAnswers")
 M_CompactionRestartPreservesReads == NoViol("CompactionRestartPreservesReads")
 M_PartitionsTileInterval == NoViol("PartitionsTileInterval")
 M_ReadStable            == NoViol("ReadStable")
